@@ -319,8 +319,9 @@ def token_names(pat):
     return out
 
 
-def ctor_of(e):
-    """Which Expr node an arm builds: ('bin', BinOpType) | ('push',) | ('suffix',) | ('break',) | ..."""
+def ctor_of(e, bound=None):
+    """Which Expr node an arm builds: ('bin', BinOpType) | ('push',) | ('suffix',) | ('break',) | ...
+    `bound` = (name, operator): the arm is entered with `name` bound to that operator (token_arms)."""
     calls = []
     for c in hir_walk(e):
         if c.get("k") == "Call" and c["f"].get("k") == "Path":
@@ -333,6 +334,10 @@ def ctor_of(e):
             return ("bin", named[n], c)
         if n == "new_bin":
             op = c["args"][0]
+            if op.get("k") == "Path" and op["r"].get("res") == "local":
+                if bound and op["r"].get("name") == bound[0]:
+                    return ("bin", bound[1], c)
+                return ("other", None, None)
             if op.get("k") == "Path":
                 return ("bin", op["r"]["path"].split("::")[-1], c)
         if n == "new_suffix":
@@ -342,6 +347,57 @@ def ctor_of(e):
     if [b for b in hir_walk(e) if b.get("k") in ("Break", "Ret")]:
         return ("break", None, None)
     return ("other", None, None)
+
+
+def operator_table_helper(F, call):
+    """`helper(&token)` where helper is a function of the parser module whose body is one match from tokens to
+    `Some(BinOpType::X)` (anything else `None`): {token: X}.  None if `call` is not such a call."""
+    if call.get("k") != "Call" or call["f"].get("k") != "Path":
+        return None
+    p = call["f"]["r"].get("path", "")
+    if not p.startswith(TQ) or "BinOpType" not in call.get("ty", ""):
+        return None
+    try:
+        h = F.hir_of(F.find(CORE, p))
+    except Exception:
+        return None
+    ms = token_match(h)
+    if len(ms) != 1:
+        return None
+    table = {}
+    for a in ms[0]["arms"]:
+        toks = token_names(a["pat"])
+        b = a["body"]
+        while b.get("k") == "Block" and not b["stmts"] and b.get("expr"):
+            b = b["expr"]
+        if b.get("k") == "Call" and b["f"].get("k") == "Path" and b["f"]["r"].get("path", "").endswith("Option::Some") and \
+                b["args"][0].get("k") == "Path" and "BinOpType::" in b["args"][0]["r"].get("path", ""):
+            for t in toks:
+                table[t] = b["args"][0]["r"]["path"].split("::")[-1]
+        elif b.get("k") == "Path" and b["r"].get("path", "").endswith("Option::None") and toks == ["_"]:
+            pass
+        else:
+            return None
+    return table or None
+
+
+def token_arms(F, h):
+    """The arms of a level of the ladder: [(tokens, body, operator or None)] - the arms of its token match, and for
+    `if let Some(op) = helper(&token) { body }` one arm per line of the helper's table, with that line's operator for `op`."""
+    out = []
+    ms = token_match(h)
+    for e in hir_walk(h["body"]):
+        if e.get("k") == "If" and e["cond"].get("k") == "Let" and "Option::Some" in H.pat_str(e["cond"]["pat"]):
+            table = operator_table_helper(F, e["cond"]["init"])
+            subs = e["cond"]["pat"].get("subs", [])
+            if table and len(subs) == 1 and subs[0].get("pk") == "bind":
+                for t, op in table.items():
+                    out.append(([t], e["then"], (subs[0]["name"], op)))
+    if len(ms) != 1:
+        return None
+    for a in ms[0]["arms"]:
+        out.append((token_names(a["pat"]), a["body"], None))
+    return out
 
 
 def token_match(fn_hir):
@@ -370,13 +426,13 @@ def parser_tables(F):
             raise AnchorLost("%s: no `let left = parse_*(iter)` first statement" % name)
         lower = parse_calls(lets[0]["init"])[0]
         loops = [l for l in hir_walk(body) if l.get("k") == "Loop" and l.get("src") == "Loop"]
-        ms = token_match(h)
-        if len(ms) != 1:
-            raise AnchorLost("%s: expected one token match, found %d" % (name, len(ms)))
+        arms = token_arms(F, h)
+        if arms is None:
+            raise AnchorLost("%s: expected one token match, found %d" % (name, len(token_match(h))))
         ops = {}
-        for a in ms[0]["arms"]:
-            toks = token_names(a["pat"])
-            kind, op, call = ctor_of(a["body"])
+        for toks, abody, bound in arms:
+            a = {"body": abody}
+            kind, op, call = ctor_of(a["body"], bound)
             if kind == "bin":
                 rc = parse_calls(a["body"])
                 if len(rc) != 1:
@@ -410,14 +466,14 @@ def parser_tables(F):
     fn, h = hir["parse_div"]
     lets = [s for k, s in H.stmts_of(h["body"]) if k == "let"]
     first = parse_calls(lets[0]["init"]) if lets else []
-    ms = token_match(h)
-    if len(ms) != 1 or not first:
+    arms = token_arms(F, h)
+    if arms is None or not first:
         raise AnchorLost("parse_div: shape not recognised")
     ops = {}
     push = []
-    for a in ms[0]["arms"]:
-        toks = token_names(a["pat"])
-        kind, op, call = ctor_of(a["body"])
+    for toks, abody, bound in arms:
+        a = {"body": abody}
+        kind, op, call = ctor_of(a["body"], bound)
         rc = parse_calls(a["body"])
         if kind == "bin":
             ltxt = H.expr_str(call["args"][-2], 80)
